@@ -120,7 +120,22 @@ def parse_contract(path):
                     getattr(cur, section).append(Clause("%s%d" % (section[:3], n), [], t, section))
             elif section == "at":
                 ev, props = sect_arg
-                cur.at.setdefault(ev, []).append((props, text))
+                # split into sub-blocks: top-level `let ghost ..;` declarations are kept apart from proof
+                # blocks so that a proof hint can be dropped without losing the ghost names later hints use
+                depth = 0
+                runs = []
+                for ln in text.split("\n"):
+                    is_decl = depth == 0 and ln.strip().startswith("let ghost")
+                    kind = "decl" if is_decl else "proof"
+                    if runs and runs[-1][0] == kind:
+                        runs[-1][1].append(ln)
+                    else:
+                        runs.append((kind, [ln]))
+                    depth += ln.count("{") - ln.count("}")
+                for kind, lns in runs:
+                    t = "\n".join(lns)
+                    if t.strip():
+                        cur.at.setdefault(ev, []).append((props, t))
             elif section == "loop":
                 key, props = sect_arg
                 cur.loops[key] = (props, text)
